@@ -2,6 +2,7 @@ package core
 
 import (
 	"bytes"
+	"os"
 	"fmt"
 	"go/ast"
 	"go/token"
@@ -299,13 +300,21 @@ func (c *Ctx) PanicInventory(entries []string, stop []string, table map[string]I
 		counts[n][class]++
 		where[n] = append(where[n], class+"@"+pos)
 	}
+	proved := 0
 	for _, s := range sites {
 		fn := at(s.File, s.Line)
 		if fn == nil || !reach[fn] {
 			continue
 		}
+		// a site in a function without reviewed allowance may still be in bounds by the
+		// branch facts that dominate it (index below a tested length, slice of a fixed array)
+		if _, listed := table[FnName(fn)]; !listed && c.P.boundsProvedByFacts(fn, s) {
+			proved++
+			continue
+		}
 		bump(fn, "idx", fmt.Sprintf("%s:%d:%d", s.File, s.Line, s.Col))
 	}
+	c.Stats["idx_sites_proved_by_facts"] = proved
 	for fn := range reach {
 		eachInstr(fn, func(in ssa.Instruction) {
 			switch x := in.(type) {
@@ -442,3 +451,100 @@ func DumpInventory(p *Prog, entries, stop []string) string {
 }
 
 var _ = ast.Inspect
+
+// boundsProvedByFacts: every index/slice instruction of fn at the reported source
+// position is in bounds by dominating branch facts (linear atoms) alone.
+func (p *Prog) boundsProvedByFacts(fn *ssa.Function, s BCESite) bool {
+	n, ok := 0, true
+	capOf := func(x ssa.Value) (Lin, bool) {
+		t := x.Type().Underlying()
+		if pt, isP := t.(*types.Pointer); isP {
+			t = pt.Elem().Underlying()
+		}
+		switch tt := t.(type) {
+		case *types.Array:
+			return Lin{Coef: map[string]int64{}, K: tt.Len()}, true
+		case *types.Basic: // string
+			return Lin{Coef: map[string]int64{"len(" + Term(x) + ")": 1}}, true
+		case *types.Slice:
+			return Lin{Coef: map[string]int64{"len(" + Term(x) + ")": 1}}, true
+		}
+		return Lin{}, false
+	}
+	nonNeg := func(in ssa.Instruction, v ssa.Value) bool {
+		if v == nil || nonNegValue(v) {
+			return true
+		}
+		l := Linearize(v)
+		if l.isConst() {
+			return l.K >= 0
+		}
+		return FactsImply(in, LEZero(l.scale(-1)))
+	}
+	le := func(in ssa.Instruction, a Lin, b Lin, strict bool) bool {
+		d := a.add(b, -1)
+		if strict {
+			d.K++
+		}
+		if d.isConst() {
+			return d.K <= 0
+		}
+		return FactsImply(in, LEZero(d))
+	}
+	eachInstr(fn, func(in ssa.Instruction) {
+		pos := p.Fset.Position(in.Pos())
+		// the compiler and go/ssa do not always agree on the column of an expression:
+		// every bounds-checked instruction of the line has to be proved
+		if !in.Pos().IsValid() || pos.Line != s.Line {
+			return
+		}
+		if os.Getenv("VSA_DEBUG_BCE") != "" {
+			fmt.Fprintf(os.Stderr, "bce-debug %s:%d:%d %T %s\n", s.File, pos.Line, pos.Column, in, DescribeInstr(in))
+		}
+		switch x := in.(type) {
+		case *ssa.IndexAddr:
+			n++
+			c, known := capOf(x.X)
+			if !known || !nonNeg(in, x.Index) || !le(in, Linearize(x.Index), c, true) {
+				ok = false
+			}
+		case *ssa.Index:
+			n++
+			c, known := capOf(x.X)
+			if !known || !nonNeg(in, x.Index) || !le(in, Linearize(x.Index), c, true) {
+				ok = false
+			}
+		case *ssa.Slice:
+			n++
+			c, known := capOf(x.X)
+			if _, isSlice := x.X.Type().Underlying().(*types.Slice); isSlice {
+				known = false // the bound is cap(x), which facts about len do not give ...
+				// ... unless x is a package-level slice made once with constant size
+				if ld, isLd := x.X.(*ssa.UnOp); isLd && ld.Op == token.MUL {
+					if g, isG := ld.X.(*ssa.Global); isG {
+						if _, cp, okc := GlobalSliceCap(g); okc {
+							c, known = Lin{Coef: map[string]int64{}, K: cp}, true
+						}
+					}
+				}
+			}
+			if !known || x.Max != nil {
+				ok = false
+				return
+			}
+			hi := c
+			if x.High != nil {
+				hi = Linearize(x.High)
+				if !nonNeg(in, x.High) || !le(in, hi, c, false) {
+					ok = false
+				}
+			}
+			if x.Low != nil {
+				if !nonNeg(in, x.Low) || !le(in, Linearize(x.Low), hi, false) {
+					ok = false
+				}
+			}
+		}
+	})
+	return n > 0 && ok
+}
